@@ -26,15 +26,20 @@ class Sc:  # scalar
 
 
 class Seq:
-    def __init__(self, items, flow=False, heads=None):
+    def __init__(self, items, flow=False, heads=None, foots=None, line=None, inner=None):
         self.items, self.flow = items, flow
         self.heads = heads or [None] * len(items)
+        self.foots = foots or [None] * len(items)     # foot comment after an item (block style)
+        self.line = line                               # line comment after a flow collection: `k: [..] # c`
+        self.inner = inner                             # flow style written over several lines: comment after each item
 
 
 class Map:
-    def __init__(self, entries, flow=False):
-        # entries: list of dicts {key: Sc, val: node, head: str|None, kline: str|None}
+    def __init__(self, entries, flow=False, line=None, inner=None):
+        # entries: list of dicts {key: Sc, val: node, head: str|None, kline: str|None, foot: str|None}
         self.entries, self.flow = entries, flow
+        self.line = line                               # line comment after a flow mapping: `k: {..} # c`
+        self.inner = inner                             # flow style over several lines: comment after each entry
 
 
 PLAIN_SAFE = re.compile(r"^[A-Za-z_À-￿][A-Za-z0-9_./À-￿-]*( [A-Za-z0-9_.À-￿]+)*$")
@@ -167,14 +172,18 @@ def render(node, indent=0):
                 lines.append(" " * indent + cmt(e["head"]))
             k = scalar_inline(e["key"], False)
             lines.extend(entry_lines(" " * indent + k + ":", e["val"], indent, e.get("kline")))
+            if e.get("foot"):
+                lines.extend([" " * indent + cmt(e["foot"]), ""])
         return lines
     if isinstance(node, Seq):
         if node.flow or not node.items:
             return [" " * indent + flow(node)]
-        for it, h in zip(node.items, node.heads):
+        for it, h, ft in zip(node.items, node.heads, node.foots):
             if h:
                 lines.append(" " * indent + cmt(h))
             lines.extend(entry_lines(" " * indent + "-", it, indent, None))
+            if ft:
+                lines.extend([" " * indent + cmt(ft), ""])
         return lines
     # scalar at top level
     return [" " * indent + (scalar_inline(node, False) or dq(node.text))]
@@ -192,7 +201,10 @@ def entry_lines(prefix, val, indent, kline):
             return [prefix + ((" " + cmt(val.line)) if val.line else "")]
         return [prefix + " " + txt + ((" " + cmt(val.line)) if val.line else "")]
     if (isinstance(val, Map) and (val.flow or not val.entries)) or (isinstance(val, Seq) and (val.flow or not val.items)):
-        return [prefix + " " + flow(val)]
+        ml = flow_multiline(val, indent + 2)
+        if ml is not None:
+            return [prefix + " " + ml[0]] + ml[1:]
+        return [prefix + " " + flow(val) + ((" " + cmt(val.line)) if getattr(val, "line", None) else "")]
     head = prefix + ((" " + cmt(kline)) if kline else "")
     if prefix.endswith("-") and isinstance(val, Map):
         # compact nested mapping in a sequence: "- k: v"
@@ -209,6 +221,30 @@ def flow(node):
     if isinstance(node, Seq):
         return "[" + ", ".join(flow(i) for i in node.items) + "]"
     return "{" + ", ".join(scalar_inline(e["key"], True) + ": " + flow(e["val"]) for e in node.entries) + "}"
+
+
+def flow_multiline(node, indent):
+    """A flow collection written over several lines so that comments can stand INSIDE it:
+         [            {
+           a, # c       k: v, # c
+           b            l: w
+         ] # line     }
+    Returns the lines (first one is the opening bracket) or None when the node asks for no inner comments."""
+    inner = getattr(node, "inner", None)
+    if not inner or not any(inner):
+        return None
+    if isinstance(node, Seq):
+        parts, op, cl = [flow(i) for i in node.items], "[", "]"
+    else:
+        parts, op, cl = [scalar_inline(e["key"], True) + ": " + flow(e["val"]) for e in node.entries], "{", "}"
+    if not parts:
+        return None
+    lines = [op]
+    for i, (p_, c) in enumerate(zip(parts, inner)):
+        sep = "," if i + 1 < len(parts) else ""
+        lines.append(" " * indent + p_ + sep + ((" " + cmt(c)) if c else ""))
+    lines.append(" " * indent + cl + ((" " + cmt(node.line)) if getattr(node, "line", None) else ""))
+    return lines
 
 
 def to_text(root, trailing_newline=True):
@@ -341,12 +377,36 @@ COMMENTS = ["c", "note", "a comment", "TODO: fix", "héllo", "x # y", "secret be
 
 class Gen:
     def __init__(self, rng, comments=True, ciphers=False, key=0x5A, pad=0, secret_texts=None, flow_ok=True,
-                 typed_ok=True):
+                 typed_ok=True, trivia=False, dup_keys=False, long_lines=False, roots=False):
+        """trivia: foot comments, line comments after flow collections, comments inside (multi-line) flow collections;
+        dup_keys: mappings may repeat a key; long_lines: strings / secrets of 90..400 characters (the emitter's line
+        width is 80); roots: documents that are not just `values:` (imports, other top-level keys, comments around).
+        All off by default (C04 uses this class and keeps its stream)."""
         self.rng, self.comments, self.ciphers = rng, comments, ciphers
         self.key, self.pad = key, pad
         self.secret_texts = secret_texts or SECRET_TEXTS
         self.flow_ok, self.typed_ok = flow_ok, typed_ok
+        self.trivia, self.dup_keys, self.long_lines, self.roots = trivia, dup_keys, long_lines, roots
         self.n_secrets = 0
+
+    def long_text(self):
+        words = ["word", "x", "lorem", "ipsum-dolor", "a,b", "日本", "k:v", "tail"]
+        n = 90 + self.rng.below(310)
+        out = []
+        while sum(len(w) + 1 for w in out) < n:
+            out.append(self.rng.choice(words))
+        return (" " if self.rng.chance(1, 2) else "").join(out) if self.rng.chance(1, 4) else " ".join(out)
+
+    def coll_trivia(self, node, in_flow):
+        """line comment after / comments inside a flow collection that sits directly in a block collection"""
+        if not self.trivia or in_flow or not node.flow:
+            return node
+        n = len(node.items) if isinstance(node, Seq) else len(node.entries)
+        if n and self.rng.chance(1, 3):
+            node.inner = [self.comment(1, 2) for _ in range(n)]
+        if self.rng.chance(1, 3):
+            node.line = self.comment(1, 1)
+        return node
 
     def comment(self, num=1, den=4):
         if self.comments and self.rng.chance(num, den):
@@ -361,6 +421,8 @@ class Gen:
 
     def string(self, in_flow):
         t = self.rng.choice(STRING_TEXTS)
+        if self.long_lines and self.rng.chance(1, 6):
+            t = self.long_text()
         return Sc(t, self.style(t, not in_flow), line=None if in_flow else self.comment(1, 6))
 
     def typed(self, in_flow):
@@ -374,6 +436,8 @@ class Gen:
     def secret(self, in_flow, text=None):
         self.n_secrets += 1
         t = text if text is not None else self.rng.choice(self.secret_texts)
+        if text is None and self.long_lines and self.rng.chance(1, 8):
+            t = self.long_text()
         kstyle = self.rng.choice(["plain", "plain", "plain", "double", "single"])
         key = Sc("fn::secret", kstyle)
         if self.ciphers and self.rng.chance(2, 3) or self.ciphers == "all":
@@ -401,7 +465,9 @@ class Gen:
             n = self.rng.below(4)
             fl = in_flow or (self.flow_ok and self.rng.chance(1, 3))
             items = [self.node(depth - 1, fl) for _ in range(n)]
-            return Seq(items, fl, [None if fl else self.comment(1, 6) for _ in items])
+            q = Seq(items, fl, [None if fl else self.comment(1, 6) for _ in items],
+                    [self.comment(1, 8) if (self.trivia and not fl) else None for _ in items])
+            return self.coll_trivia(q, in_flow)
         if r < 78:
             return self.provider(depth, in_flow)
         return self.mapping(depth, in_flow, 1 + self.rng.below(4))
@@ -409,6 +475,8 @@ class Gen:
     def mapping(self, depth, in_flow, n):
         fl = in_flow or (self.flow_ok and self.rng.chance(1, 4))
         keys = self.rng.shuffle(KEYS)[:n]
+        if self.dup_keys and n >= 2 and self.rng.chance(1, 5):
+            keys[self.rng.below(n)] = keys[self.rng.below(n)]          # the same key (possibly) twice
         entries = []
         for k in keys:
             v = self.node(depth - 1, fl)
@@ -416,8 +484,9 @@ class Gen:
             kline = None
             if not fl and isinstance(v, (Map, Seq)) and not getattr(v, "flow", False):
                 kline = self.comment(1, 8)
-            entries.append({"key": ks, "val": v, "head": None if fl else self.comment(1, 5), "kline": kline})
-        return Map(entries, fl)
+            entries.append({"key": ks, "val": v, "head": None if fl else self.comment(1, 5), "kline": kline,
+                            "foot": self.comment(1, 8) if (self.trivia and not fl) else None})
+        return self.coll_trivia(Map(entries, fl), in_flow)
 
     def provider(self, depth, in_flow):
         inputs = self.mapping(depth - 1, in_flow, 1 + self.rng.below(3))
@@ -433,5 +502,24 @@ class Gen:
         for e in vals.entries:
             if e["key"].text in ("123", "true", "null"):
                 e["key"].style = "double"
-        root = Map([{"key": Sc("values", "plain"), "val": vals, "head": self.comment(1, 5)}])
+        ents = [{"key": Sc("values", "plain"), "val": vals, "head": self.comment(1, 5)}]
+        if self.roots:
+            r = self.rng
+            k = r.below(6)
+            if k in (0, 1):      # imports before the values (strings, a merge-less import object)
+                imps = Seq([Sc(r.choice(["base", "a/b", "proj/env"]), r.choice(["plain", "double"])) for _ in range(1 + r.below(2))],
+                           r.chance(1, 3), None)
+                if k == 1:
+                    imps.items.append(Map([{"key": Sc("other", "plain"),
+                                            "val": Map([{"key": Sc("merge", "plain"), "val": Sc("false", typed="bool")}], r.chance(1, 2))}],
+                                          imps.flow))
+                ents.insert(0, {"key": Sc("imports", "plain"), "val": imps, "head": self.comment(1, 4)})
+            elif k == 2:         # an unknown top-level key holding anything, also a secret
+                ents.append({"key": Sc(r.choice(["foo", "metadata", "x-ext"]), "plain"), "val": self.node(depth - 1, False),
+                             "head": self.comment(1, 4)})
+            elif k == 3:         # values is not the first key; an empty imports list
+                ents.insert(0, {"key": Sc("imports", "plain"), "val": Seq([], True)})
+            elif k == 4:         # foot comment at the end of the document
+                ents[-1]["foot"] = self.comment(1, 1)
+        root = Map(ents)
         return root
